@@ -573,4 +573,195 @@ theorem forEach_collect (batch : List Ev) (acc : List Ev) :
   | nil => simp
   | cons e es ih => simp [List.foldl_cons, ih]
 
+/-! ### kafka: views into the growing buffer -/
+
+/-- a record whose view still shows `enc` in heap `h` -/
+def Good (h : KHeap) (r : KRec) (enc : Bytes) : Prop :=
+  r.value.hi = r.value.lo + enc.length ∧ r.value.arr ≤ h.frozen.length ∧
+  (h.cur.drop r.value.lo).take enc.length = enc ∧ r.value.hi ≤ h.cur.length ∧
+  (∀ a, h.frozen[r.value.arr]? = some a → r.value.hi ≤ a.length)
+
+def AllGood (h : KHeap) (c : KCfg) : List KRec → List Ev → Prop
+  | [], [] => True
+  | r :: rs, e :: es => (r.topic = kafkaTopic c e ∧ Good h r e.enc) ∧ AllGood h c rs es
+  | _, _ => False
+
+/-- abandoned arrays are prefixes of the current one -/
+def FrozenOk (h : KHeap) : Prop := ∀ a ∈ h.frozen, a <+: h.cur
+
+theorem append_cur (grow : Nat → Nat → Nat) (h : KHeap) (x : Bytes) : (h.append grow x).cur = h.cur ++ x := by
+  unfold KHeap.append; split <;> rfl
+
+theorem append_frozen (grow : Nat → Nat → Nat) (h : KHeap) (x : Bytes) :
+    (h.append grow x).frozen = h.frozen ∨ (h.append grow x).frozen = h.frozen ++ [h.cur] := by
+  unfold KHeap.append; split
+  · exact Or.inl rfl
+  · exact Or.inr rfl
+
+theorem frozenOk_append (grow : Nat → Nat → Nat) (h : KHeap) (x : Bytes) (hf : FrozenOk h) :
+    FrozenOk (h.append grow x) := by
+  intro a ha
+  rw [append_cur]
+  rcases append_frozen grow h x with h1 | h1
+  · rw [h1] at ha
+    exact (hf a ha).trans (List.prefix_append _ _)
+  · rw [h1] at ha
+    simp at ha
+    rcases ha with ha | ha
+    · exact (hf a ha).trans (List.prefix_append _ _)
+    · subst ha; exact List.prefix_append _ _
+
+theorem drop_take_append (cur x : Bytes) (lo n : Nat) (h : lo + n ≤ cur.length) :
+    ((cur ++ x).drop lo).take n = (cur.drop lo).take n := by
+  rw [List.drop_append_of_le_length (by omega), List.take_append_of_le_length (by simp; omega)]
+
+theorem good_append (grow : Nat → Nat → Nat) (h : KHeap) (x : Bytes) (r : KRec) (enc : Bytes)
+    (hg : Good h r enc) : Good (h.append grow x) r enc := by
+  obtain ⟨h1, h2, h3, h4, h5⟩ := hg
+  refine ⟨h1, ?_, ?_, ?_, ?_⟩
+  · rcases append_frozen grow h x with e | e
+    · rw [e]; exact h2
+    · rw [e]; simp; omega
+  · rw [append_cur, drop_take_append _ _ _ _ (by omega)]; exact h3
+  · rw [append_cur]; simp; omega
+  · intro a ha
+    rcases append_frozen grow h x with e | e
+    · rw [e] at ha; exact h5 a ha
+    · rw [e] at ha
+      by_cases hlt : r.value.arr < h.frozen.length
+      · rw [List.getElem?_append_left hlt] at ha; exact h5 a ha
+      · have : r.value.arr = h.frozen.length := by omega
+        rw [this] at ha
+        simp at ha
+        subst ha
+        exact h4
+
+theorem allGood_append (grow : Nat → Nat → Nat) (c : KCfg) (h : KHeap) (x : Bytes) :
+    ∀ (rs : List KRec) (es : List Ev), AllGood h c rs es → AllGood (h.append grow x) c rs es := by
+  intro rs
+  induction rs with
+  | nil => intro es hh; cases es <;> simpa [AllGood] using hh
+  | cons r rs ih =>
+    intro es hh
+    cases es with
+    | nil => simp [AllGood] at hh
+    | cons e es =>
+      simp only [AllGood] at hh ⊢
+      exact ⟨⟨hh.1.1, good_append grow h x r e.enc hh.1.2⟩, ih es hh.2⟩
+
+theorem allGood_snoc (h : KHeap) (c : KCfg) (r : KRec) (e : Ev) :
+    ∀ (rs : List KRec) (es : List Ev), AllGood h c rs es → (r.topic = kafkaTopic c e ∧ Good h r e.enc) →
+      AllGood h c (rs ++ [r]) (es ++ [e]) := by
+  intro rs
+  induction rs with
+  | nil => intro es hh hr; cases es <;> simp [AllGood] at hh ⊢; exact hr
+  | cons r' rs ih =>
+    intro es hh hr
+    cases es with
+    | nil => simp [AllGood] at hh
+    | cons e' es =>
+      simp only [AllGood, List.cons_append] at hh ⊢
+      exact ⟨hh.1, ih es hh.2 hr⟩
+
+theorem allGood_length (h : KHeap) (c : KCfg) : ∀ (rs : List KRec) (es : List Ev), AllGood h c rs es → rs.length = es.length := by
+  intro rs
+  induction rs with
+  | nil => intro es hh; cases es <;> simp [AllGood] at hh ⊢
+  | cons r rs ih =>
+    intro es hh
+    cases es with
+    | nil => simp [AllGood] at hh
+    | cons e es => simp only [AllGood] at hh; simp [ih es hh.2]
+
+theorem prefix_slice (a cur : Bytes) (hp : a <+: cur) (lo hi : Nat) (h1 : lo ≤ hi) (h2 : hi ≤ a.length) :
+    (a.drop lo).take (hi - lo) = (cur.drop lo).take (hi - lo) := by
+  obtain ⟨t, rfl⟩ := hp
+  rw [drop_take_append _ _ _ _ (by omega)]
+
+theorem read_good (h : KHeap) (hf : FrozenOk h) (r : KRec) (enc : Bytes) (hg : Good h r enc) :
+    h.read r.value = some enc := by
+  obtain ⟨h1, h2, h3, h4, h5⟩ := hg
+  unfold KHeap.read KHeap.arrays
+  by_cases hlt : r.value.arr < h.frozen.length
+  · rw [List.getElem?_append_left hlt]
+    have hget : h.frozen[r.value.arr]? = some h.frozen[r.value.arr] := List.getElem?_eq_getElem hlt
+    rw [hget]
+    have hle := h5 _ hget
+    have hp := hf _ (List.getElem_mem hlt)
+    simp only
+    rw [if_pos ⟨by omega, hle⟩, prefix_slice _ _ hp _ _ (by omega) hle]
+    have : r.value.hi - r.value.lo = enc.length := by omega
+    rw [this, h3]
+  · have : r.value.arr = h.frozen.length := by omega
+    rw [this]
+    simp only [List.getElem?_append_right (Nat.le_refl _), Nat.sub_self, List.getElem?_cons_zero]
+    rw [if_pos ⟨by omega, h4⟩]
+    have : r.value.hi - r.value.lo = enc.length := by omega
+    rw [this, h3]
+
+theorem read_allGood (h : KHeap) (c : KCfg) (hf : FrozenOk h) :
+    ∀ (rs : List KRec) (es : List Ev), AllGood h c rs es →
+      rs.mapM (fun r => (h.read r.value).map (fun v => (r.topic, v))) = some (es.map (fun e => (kafkaTopic c e, e.enc))) := by
+  intro rs
+  induction rs with
+  | nil => intro es hh; cases es <;> simp [AllGood] at hh ⊢
+  | cons r rs ih =>
+    intro es hh
+    cases es with
+    | nil => simp [AllGood] at hh
+    | cons e es =>
+      simp only [AllGood] at hh
+      simp [List.mapM_cons, read_good h hf r e.enc hh.1.2, ih es hh.2, hh.1.1]
+
+
+structure KInv (c : KCfg) (a : KAcc) (done : List Ev) : Prop where
+  np : a.panic = false
+  fr : FrozenOk a.heap
+  good : AllGood a.heap c a.recs done
+  ord : a.recs.Pairwise (fun r s => r.value.hi ≤ s.value.lo)
+  bound : ∀ r ∈ a.recs, r.value.hi ≤ a.heap.cur.length
+
+theorem kinv_init (c : KCfg) (lim : Nat) : KInv c ⟨kafkaStart lim, [], false⟩ [] :=
+  ⟨rfl, by intro a ha; simp [kafkaStart] at ha, by simp [AllGood], by simp, by simp⟩
+
+theorem kinv_step (grow : Nat → Nat → Nat) (c : KCfg) (a : KAcc) (done : List Ev) (e : Ev)
+    (hi : KInv c a done) (hroom : done.length < c.batchSize) :
+    KInv c (kafkaStep grow c a e) (done ++ [e]) := by
+  have hlen := allGood_length _ _ _ _ hi.good
+  unfold kafkaStep
+  rw [if_neg (by simp [hi.np])]
+  simp only
+  rw [if_pos (by omega)]
+  have hcur := append_cur grow a.heap e.enc
+  refine ⟨rfl, frozenOk_append grow _ _ hi.fr, ?_, ?_, ?_⟩
+  · apply allGood_snoc _ _ _ _ _ _ (allGood_append grow c a.heap e.enc _ _ hi.good)
+    refine ⟨rfl, ?_, ?_, ?_, ?_, ?_⟩
+    · simp [hcur]
+    · simp [KHeap.curId]
+    · simp [hcur]
+    · simp
+    · intro x hx; simp [KHeap.curId] at hx
+  · rw [List.pairwise_append]
+    refine ⟨hi.ord, by simp, ?_⟩
+    intro r hr s hs
+    simp at hs; subst hs
+    exact hi.bound r hr
+  · intro r hr
+    simp at hr
+    rcases hr with hr | hr
+    · have := hi.bound r hr; rw [hcur]; simp; omega
+    · subst hr; simp
+
+theorem kinv_foldl (grow : Nat → Nat → Nat) (c : KCfg) :
+    ∀ (l : List Ev) (a : KAcc) (done : List Ev), KInv c a done → done.length + l.length ≤ c.batchSize →
+      KInv c (l.foldl (kafkaStep grow c) a) (done ++ l) := by
+  intro l
+  induction l with
+  | nil => intro a done h _; simpa using h
+  | cons e es ih =>
+    intro a done h hroom
+    simp only [List.foldl_cons, List.length_cons] at hroom ⊢
+    have := ih (kafkaStep grow c a e) (done ++ [e]) (kinv_step grow c a done e h (by omega)) (by simp; omega)
+    simpa using this
+
 end FileD.Payload
